@@ -36,6 +36,7 @@ var (
 	jobs    = flag.Int("jobs", 8, "runner-batch: parallel child processes")
 	family  = flag.String("family", "mixed", "runner-batch: scenario family")
 	verbose = flag.Bool("v", false, "verbose")
+	census  = flag.Bool("census", false, "runner: log the goroutine census (G: tokens) at quiescent points (C18 cluster leg)")
 )
 
 // ---------------------------------------------------------------- configs
